@@ -343,14 +343,21 @@ func (h *H) sbx(op, fl string, l lab, wl []lab, dirs []string) {
 	// direct oracle
 	exempt := t.IsFilegroup || len(wl) == 0 || (!t.IsRemoteFile && t.Sandbox && (t.Test == nil || t.Test.Sandbox)) || l.P == "_please"
 	spec := exempt
-	wlRaw, wlDot, expRaw := false, false, false
+	// root cause of a wrong acceptance: ask the real Matches about every whitelist entry
+	wlCause, expRaw := "", false
 	for _, w := range wl {
+		m := w.core().Matches(l.core())
 		if specMatches(w, l) {
 			spec = true
-		} else if w.N == "..." && rawPrefixOnly(w.P, l.P) {
-			wlRaw = true
-		} else if w.N == "..." && w.P == "." {
-			wlDot = true
+		} else if m && wlCause == "" {
+			switch {
+			case w.N == "..." && w.P == ".":
+				wlCause = "matches-dot-package-matches-all"
+			case w.N == "..." && rawPrefixOnly(w.P, l.P):
+				wlCause = "matches-string-prefix"
+			default:
+				wlCause = "matches-deviates"
+			}
 		}
 	}
 	for _, d := range dirs {
@@ -363,12 +370,10 @@ func (h *H) sbx(op, fl string, l lab, wl []lab, dirs []string) {
 	got := out == "ok"
 	if got != spec {
 		switch {
+		case got && !spec && wlCause != "":
+			r.OracleFail(wlCause, op, fmt.Sprintf("%v opts out of the sandbox via whitelist %v", l, wl))
 		case got && !spec && expRaw:
 			r.OracleFail("sandbox-experimental-string-prefix", op, fmt.Sprintf("%v opts out of the sandbox via experimental dirs %q", l, dirs))
-		case got && !spec && wlRaw:
-			r.OracleFail("matches-string-prefix", op, fmt.Sprintf("%v opts out of the sandbox via whitelist %v", l, wl))
-		case got && !spec && wlDot:
-			r.OracleFail("matches-dot-package-matches-all", op, fmt.Sprintf("%v opts out of the sandbox via whitelist %v", l, wl))
 		default:
 			r.OracleFail("sandbox-other", op, fmt.Sprintf("validateSandbox=%s, documented rules say accept=%v", out, spec))
 		}
@@ -442,10 +447,10 @@ func (h *H) runOp(op string) {
 			got, spec = a.core().Matches(b.core()), specMatches(a, b)
 			if got != spec {
 				cls := "matches-deviates"
-				if a.N == "..." && got && rawPrefixOnly(a.P, b.P) {
-					cls = "matches-string-prefix"
-				} else if a.N == "..." && got && a.P == "." {
+				if a.N == "..." && got && a.P == "." {
 					cls = "matches-dot-package-matches-all"
+				} else if a.N == "..." && got && rawPrefixOnly(a.P, b.P) {
+					cls = "matches-string-prefix"
 				}
 				r.OracleFail(cls, op, fmt.Sprintf("%v.Matches(%v)=%v, by components %v", a, b, got, spec))
 			}
@@ -515,10 +520,10 @@ func (h *H) runOp(op string) {
 				if f[1] == "inc" {
 					cls = "includes-deviates"
 				}
-				if n == "..." && got && rawPrefixOnly(p, q) {
-					cls = map[string]string{"inc": "includes-string-prefix", "mat": "matches-string-prefix"}[f[1]]
-				} else if f[1] == "mat" && n == "..." && got && p == "." {
+				if f[1] == "mat" && n == "..." && got && p == "." {
 					cls = "matches-dot-package-matches-all"
+				} else if n == "..." && got && rawPrefixOnly(p, q) {
+					cls = map[string]string{"inc": "includes-string-prefix", "mat": "matches-string-prefix"}[f[1]]
 				}
 				r.OracleFail(cls, op, fmt.Sprintf("pattern //%s:%s on package %q: selected=%v, by components %v", p, n, q, got, spec))
 			}
